@@ -161,15 +161,17 @@ func runTablesThreeClients(r *ev.Run, shard, nshards int) {
 // connections are closed ("closing either side removes the socket everywhere").  The
 // free-running race pass reported the proxy's client list (Socks.Clients) as a racy
 // location no other scenario explored; it is in this scenario's focus.
-func runTablesTwoHandshakes(r *ev.Run, shard, nshards int) {
+func runTablesTwoHandshakes(r *ev.Run, shard, nshards int, fullFocus bool) {
+	// quick: scheduling points at the proxy's client list only, one preemption; thorough:
+	// that focus with two preemptions, and the full focus with one (two separate trees)
 	bound := 1
-	if r.Thorough() {
+	if r.Thorough() && !fullFocus {
 		bound = 2
 	}
 	if v, err := strconv.Atoi(os.Getenv("VERIF_C15_BOUND")); err == nil {
 		bound = v // experiments only
 	}
-	r.Bounds["preemption_bound_two_handshakes"] = bound
+	r.Bounds[fmt.Sprintf("preemption_bound_two_handshakes_fullfocus=%v", fullFocus)] = bound
 	dl := 60 * time.Second
 	if d, err := time.ParseDuration(os.Getenv("VERIF_C15_DEADLINE")); err == nil {
 		dl = d
@@ -184,7 +186,7 @@ func runTablesTwoHandshakes(r *ev.Run, shard, nshards int) {
 		// quick: scheduling points at the proxy's client list only (the location the race pass
 		// named), every schedule with at most one preemption there; thorough: the full focus
 		focus := []string{"Clients"}
-		if r.Thorough() {
+		if fullFocus {
 			focus = []string{"SocksCli", "SocksSvr", "Connected", "Conn", "Clients"}
 		}
 		se := newSess(c, 60000, focus...)
@@ -255,7 +257,7 @@ func runTablesTwoHandshakes(r *ev.Run, shard, nshards int) {
 	for o := range outcomes {
 		r.Outcome("tables4/" + o)
 	}
-	r.Extra[fmt.Sprintf("tables_scenario_two_handshakes_shard_%d_of_%d", shard, nshards)] = map[string]any{"name": name, "executions": t.Executions, "choice_points": t.Points, "preemption_bound": bound}
+	r.Extra[fmt.Sprintf("tables_scenario_two_handshakes_fullfocus=%v_shard_%d_of_%d", fullFocus, shard, nshards)] = map[string]any{"name": name, "executions": t.Executions, "choice_points": t.Points, "preemption_bound": bound}
 	r.Eval(int(t.Executions))
 	r.AddStates(t.Points, t.Points, t.Executions)
 }
